@@ -8,6 +8,7 @@
 -/
 import Optyx.Props.C01
 import Optyx.Props.BuildTie
+import Optyx.Props.EvalTie
 
 namespace Optyx.Props.C01
 open Optyx Optyx.Py Optyx.Generated NumAlg
@@ -34,5 +35,28 @@ theorem compileVec_of_source_equations (V : List Var)
     (hf : ∀ e, f e = buildStepG (idxOf V) f fv e) (hv : ∀ v, fv v = buildVecStepG (idxOf V) f v) (v : Vec) :
     fv v = compileVec (idxOf V) v :=
   BuildTie.vec_unique (idxOf V) f fv hf hv v
+
+/-- **tree evaluation = mathematical value, for every solution of the source's equations**: whatever function satisfies the
+    equations translated from the `evaluate` methods of all seventeen expression classes on this run returns `⟦e⟧ ρ σ` whenever
+    `values` holds the environment's value of every variable of `e` (parameters contribute the store of that moment) -/
+theorem evaluate_eq_denote_of_source_equations [AddLaws α] (values : String → Option α) (ρ : String → α) (σ : Nat → α)
+    (f : Expr → Except CErr α) (hf : ∀ e, f e = evalStepG values σ f e)
+    (e : Expr) (hwf : wfE e = true) (h : ∀ v ∈ getVars e, values v.name = some (ρ v.name)) :
+    f e = .ok (denote ρ σ e) := by
+  rw [EvalTie.step_unique values σ f hf e]
+  exact evaluate_eq_denote values ρ σ e hwf h
+
+/-- compiled value = tree value = ⟦e⟧, with BOTH sides given by the source's equations -/
+theorem compile_eq_evaluate_of_source_equations [AddLaws α] (V : List Var)
+    (fc : Expr → Except CErr Clo) (fv : Vec → Except CErr VClo)
+    (hc : ∀ e, fc e = buildStepG (idxOf V) fc fv e) (hv : ∀ v, fv v = buildVecStepG (idxOf V) fc v)
+    (e : Expr) (hwf : wfE e = true) (hV : ∀ v ∈ getVars e, v.name ∈ V.map (·.name))
+    (ρ : String → α) (σ : Nat → α) (x : List α) (hx : Agree ρ V x)
+    (values : String → Option α) (hval : ∀ v ∈ getVars e, values v.name = some (ρ v.name))
+    (fe : Expr → Except CErr α) (he : ∀ e, fe e = evalStepG values σ fe e) :
+    ∃ c, fc e = .ok c ∧ Clo.run x σ c = fe e := by
+  obtain ⟨c, hc1, hc2⟩ := compile_sound_of_source_equations (α := α) V fc fv hc hv e hwf hV
+  refine ⟨c, hc1, ?_⟩
+  rw [hc2 ρ σ x hx, evaluate_eq_denote_of_source_equations values ρ σ fe he e hwf hval]
 
 end Optyx.Props.C01
